@@ -271,8 +271,12 @@ func genCashSymbols(t *rapid.T) []byte {
 		if padBits > 0 {
 			syms[len(syms)-1] |= byte(rapid.IntRange(1, 1<<uint(padBits)-1).Draw(t, "padbits"))
 		}
-	case 1: // one surplus symbol
-		syms = append(syms, byte(rapid.IntRange(0, 31).Draw(t, "surplus")))
+	case 1: // one surplus symbol (often the all-zero symbol: "over-long padding")
+		if rapid.Bool().Draw(t, "surplus_zero") {
+			syms = append(syms, 0)
+		} else {
+			syms = append(syms, byte(rapid.IntRange(0, 31).Draw(t, "surplus")))
+		}
 	}
 	return syms
 }
@@ -307,6 +311,8 @@ func renderCash(t *rapid.T, prefix, body string) string {
 			}
 		}
 		s = sb.String()
+	case 3: // byte-level aliases of one character (bit 5/6/7 flipped, same-low-byte runes)
+		s = aliasChar(t, s)
 	}
 	return s
 }
@@ -396,12 +402,19 @@ func genC02(t *rapid.T) c02Case {
 			n = rapid.IntRange(0, 40).Draw(t, "len")
 		}
 		s := refB58CheckEncode(genBytesN(t, "payload", n), ver)
-		if rapid.IntRange(0, 3).Draw(t, "edit") == 0 {
+		switch rapid.IntRange(0, 7).Draw(t, "edit") {
+		case 0, 1:
 			s = mutateString(t, s)
+		case 2:
+			s = aliasChar(t, s)
 		}
 		return c02Case{S: s, Class: "B"}
 	case 6, 7: // C: hex strings of public-key length
-		return c02Case{S: genPubKeyHex(t), Class: "C"}
+		h := genPubKeyHex(t)
+		if rapid.IntRange(0, 7).Draw(t, "hexalias") == 0 {
+			h = aliasChar(t, h)
+		}
+		return c02Case{S: h, Class: "C"}
 	case 8: // D: mutations of valid addresses
 		return c02Case{S: mutateString(t, genValidAddressString(t)), Class: "D"}
 	default: // E: random strings
@@ -515,7 +528,7 @@ func TestC02(t *testing.T) {
 		bad[0] = 0x05
 		kC02.One(ev, c02Case{S: hex.EncodeToString(bad), Class: "C"})
 
-		kC02.Run(t, ev, perShard(pick(10000, 1000000)))
+		kC02.Run(t, ev, perShard(pick(10000, 6000000)))
 		ev.requireClasses("C02:class-A", "C02:class-B", "C02:class-C", "C02:class-D", "C02:class-E",
 			"C02:accepted-cash", "C02:accepted-slp", "C02:accepted-legacy", "C02:accepted-pubkey", "C02:outer-layer-passed")
 	})
